@@ -1986,7 +1986,7 @@ class ReferenceManager:
         self._valid_to_refs[id(new_value)] = newrefs
 
     @staticmethod
-    def _impl_change_ref(impl, name, value, *refmode):
+    def _impl_change_ref(impl, name, value, refmode=None):
 
         if isinstance(impl, ModelImpl):
             impl.model.change_ref(name, value)
